@@ -102,8 +102,9 @@ def run(c, a):
     for tp, rj, r in res:
         events += rj["n"]
         c.nontrivial += rj["nontrivial"]
+        lines = open(tp).read().split("\n") if rj["fails"] else []   # one pass (a mutant can fail on every event)
         for f in rj["fails"]:
-            ev = read_line(tp, f["line"])
+            ev = json.loads(lines[f["line"] - 1])
             sig = signature(ev, f)
             c.fail(sig, "runes=%s pred=%s at=%s observed=%s" % ([hex(x) for x in ev.get("r", [])], f["pred"], f["at"], ev["b"]),
                    {"engine": "seg", "runes": ev.get("r"), "kind": ev["k"], "pred": f["pred"], "at": f["at"],
